@@ -50,6 +50,17 @@ RULE = ("request lines sent to the real crates (and, for trace/locseq/spec reque
 
 BOM = "\ufeff"
 
+# A second build flavour of the same harness binary: no debug assertions, no overflow checks (what a
+# release build of the crates does: the LinearLocator has no self-check and `u32` subtraction wraps).
+# Registered here because tools/core.py only knows cargo *feature* sets; it is only built in the
+# thorough tier.
+core.FEATURE_SETS.setdefault("nodebug", [
+    "--config", "profile.dev.debug-assertions=false", "--config", "profile.dev.overflow-checks=false",
+    "--config", 'profile.dev.package."*".debug-assertions=false',
+    "--config", 'profile.dev.package."*".overflow-checks=false'])
+HARNESS_R = {"bin": "pvh_c13", "features": "nodebug"}
+EXTRA_HARNESS = [HARNESS_R]
+
 # ------------------------------------------------------------------ independent reference
 
 
@@ -208,7 +219,7 @@ def oracle(req, out):
         if not m:
             return f"the fold did not repeat its recorded call sequence: {out[:80]}"
         if m.group(2) != "true":
-            bad = _first_not_forward(unhex(ws[3]), ws[4:])
+            bad = _describe(_first_not_forward(unhex(ws[3]), ws[4:]), ws[4:])
             return ("the fold drives the forward-only LinearLocator with a history that is not forward "
                     f"(hypothesis of linear_eq_spec): {bad}")
         if any(op.endswith("=none") for op in ws[4:]):
@@ -218,17 +229,27 @@ def oracle(req, out):
 
 
 def _first_not_forward(src, ops):
+    """(index, reason, offset, cursor) of the first call that leaves the forward domain, or None"""
     ref = Ref(src)
     cursor = 3 if ref.bom else 0
     for i, op in enumerate(ops):
         k, off = op[0], int(op[1:].split("=")[0])
         if not ref.in_domain(off):
-            return f"call {i} ({op}) is outside the domain (inside CR LF / a BOM / off a boundary)"
+            return i, "outside", off, cursor
         if off < cursor:
-            return f"call {i} ({op}) is behind the cursor {cursor}"
+            return i, "behind", off, cursor
         if k == "l":
             cursor = off
-    return "?"
+    return None
+
+
+def _describe(nf, ops):
+    if nf is None:
+        return "?"
+    i, why, off, cursor = nf
+    if why == "behind":
+        return f"call {i} ({ops[i]}) is behind the cursor {cursor}"
+    return f"call {i} ({ops[i]}) is outside the domain (inside CR LF / a BOM / off a boundary)"
 
 
 # ------------------------------------------------------------------ known findings
@@ -242,22 +263,22 @@ def _byte_offset(lines_b, lineno, col):
     return sum(len(l) for l in lines_b[:lineno - 1]) + col
 
 
-def _class_kw_before_star_offsets(src_b):
-    """byte offsets of class keywords that precede a starred base (CPython's ast as the reader)"""
+def _class_kw_before_star(src_b):
+    """byte ranges (start, end) of class keywords that precede a starred base (CPython's ast as the reader)"""
     try:
         tree = ast.parse(src_b)
     except Exception:
-        return set()
-    text = src_b
-    lines_b = text.splitlines(keepends=True)
-    out = set()
+        return []
+    lines_b = src_b.splitlines(keepends=True)
+    out = []
     for n in ast.walk(tree):
         if isinstance(n, ast.ClassDef):
             stars = [b for b in n.bases if isinstance(b, ast.Starred)]
             for kw in n.keywords:
                 kpos = (kw.lineno, kw.col_offset)
                 if any((s.lineno, s.col_offset) > kpos for s in stars):
-                    out.add(_byte_offset(lines_b, kw.lineno, kw.col_offset))
+                    out.append((_byte_offset(lines_b, kw.lineno, kw.col_offset),
+                                _byte_offset(lines_b, kw.end_lineno, kw.end_col_offset)))
     return out
 
 
@@ -270,16 +291,37 @@ def _source_of(req):
     return None
 
 
+def _history_finding(src, ops, wrong):
+    """Which listed finding explains a history that is not forward?  `wrong` = (start, end) ranges of
+    the nodes located wrongly (release flavour) — they must all be explained too."""
+    nf = _first_not_forward(src, ops)
+    if nf is None:
+        return None
+    i, why, off, cursor = nf
+    ref = Ref(src)
+    shift = 3 if ref.bom else 0
+    body = src[shift:]
+    if why == "behind":
+        if ops[i][0] != "l":
+            return None
+        kws = [(a + shift, b + shift) for a, b in _class_kw_before_star(body)]
+        if not any(a == off for a, b in kws):
+            return None
+        if all(any(a <= s and e <= b for a, b in kws) for s, e in wrong):
+            return K_CLASS
+        return None
+    if ref.inside_crlf(off) and ref.boundary(off) and off >= cursor:
+        # a release build is off by one line from here on
+        if all(e >= off for s, e in wrong):
+            return K_CRLF
+    return None
+
+
 def classify(req, impl_out, model_out, failure):
     ws = req.split()
     src = _source_of(req)
     if src is None:
         return None
-    if src.startswith(BOM.encode()):
-        body = src[3:]
-        shift = 3
-    else:
-        body, shift = src, 0
     if ws[0] == "locate":
         d = _parse_locate(impl_out or "")
         if d is None or d["walk"] != "ok" or d["rnd"] != "ok":
@@ -288,54 +330,34 @@ def classify(req, impl_out, model_out, failure):
         probs = _node_problems(ref, d)
         if any(p[3] == "RandomLocator" for p in probs):
             return None
+        nf = _first_not_forward(src, d["trace"])
         if d["lin"] == "panic":
-            if not d["trace"]:
+            # debug flavour: the fold dies at the first call that is not forward
+            if nf is None or nf[0] != len(d["trace"]) - 1 or not d["trace"][-1].endswith("=none"):
                 return None
-            m = re.match(r"l(\d+)=none$", d["trace"][-1])
-            if not m:
-                return None
-            off = int(m.group(1))
-            prev = [int(x[1:].split("=")[0]) for x in d["trace"][:-1] if x[0] == "l"]
-            if prev and off < prev[-1] and (off - shift) in _class_kw_before_star_offsets(body):
-                return K_CLASS
-            if ref.inside_crlf(off) and (not prev or off >= prev[-1]):
-                return K_CRLF
+            return _history_finding(src, d["trace"], [])
+        if not probs:
             return None
-        if probs:
-            # every wrong position is a piece of an f-string built by implicit concatenation (a
-            # FormattedValue, or the JoinedStr/Constant of its format spec) that received the location
-            # of the enclosing JoinedStr instead of its own
-            joined = {f"{ref.show(s)}-{ref.show(e)}": (s, e) for k, s, e, _, _ in d["nodes"] if k == "ExprJoinedStr"}
-            for k, s, e, which, got, exp in probs:
-                if k not in ("ExprFormattedValue", "ExprJoinedStr", "ExprConstant") or got not in joined:
-                    return None
-                js, je = joined[got]
-                if not (js <= s and e <= je and (js, je) != (s, e)):
-                    return None
-                if src[s:s + 1] in b"'\"" or src[s:e].lstrip(b"rRbBuU")[:1] in (b"'", b'"'):
-                    return None     # the piece itself must be an f-string literal
-            return K_FCONCAT
-        return None
+        if nf is not None:
+            return _history_finding(src, d["trace"], [(p[1], p[2]) for p in probs])
+        # forward history, wrong positions: every one is a piece of an f-string built by implicit
+        # concatenation (a FormattedValue, or the JoinedStr/Constant of its format spec) that received
+        # the location of the enclosing JoinedStr instead of its own
+        joined = {f"{ref.show(s)}-{ref.show(e)}": (s, e) for k, s, e, _, _ in d["nodes"] if k == "ExprJoinedStr"}
+        for k, s, e, which, got, exp in probs:
+            if k not in ("ExprFormattedValue", "ExprJoinedStr", "ExprConstant") or got not in joined:
+                return None
+            js, je = joined[got]
+            if not (js <= s and e <= je and (js, je) != (s, e)):
+                return None
+            if src[s:e].lstrip(b"rRbBuU")[:1] in (b"'", b'"'):
+                return None     # the piece itself must be an f-string literal
+        return K_FCONCAT
     if ws[0] == "trace":
-        # only when model and implementation agree and the history is not forward in one of the
-        # listed ways
+        # only when model and implementation agree and the history is not forward in a listed way
         if impl_out != model_out or not re.match(r"ok \d+ fwd=false$", impl_out or ""):
             return None
-        ops = ws[4:]
-        ref = Ref(src)
-        cursor = 3 if ref.bom else 0
-        for i, op in enumerate(ops):
-            k, off = op[0], int(op[1:].split("=")[0])
-            if not ref.in_domain(off):
-                # the only listed out-of-domain shape: the last call, inside a CR LF pair
-                return K_CRLF if (i == len(ops) - 1 and ref.inside_crlf(off) and off >= cursor) else None
-            if off < cursor:
-                if i == len(ops) - 1 and k == "l" and (off - shift) in _class_kw_before_star_offsets(body):
-                    return K_CLASS
-                return None
-            if k == "l":
-                cursor = off
-        return None
+        return _history_finding(src, ws[4:], [])
     return None
 
 
@@ -841,7 +863,7 @@ def _run_harness(hbin, reqs, jobs):
     return core.run_lines([hbin], reqs, jobs=jobs)
 
 
-def _trace_requests(locate_reqs, outs, max_cost=None):
+def _trace_requests(locate_reqs, outs, max_cost=None, flavour="d"):
     """turn answered `locate` requests into `trace` requests carrying the recorded call sequence"""
     reqs = []
     for rq, out in zip(locate_reqs, outs):
@@ -852,7 +874,7 @@ def _trace_requests(locate_reqs, outs, max_cost=None):
         n = len(unhex(ws[2]))
         if max_cost is not None and n * len(d["trace"]) > max_cost:
             continue
-        reqs.append(f"trace d {ws[1]} {ws[2]} {' '.join(d['trace'])}")
+        reqs.append(f"trace {flavour} {ws[1]} {ws[2]} {' '.join(d['trace'])}")
     return reqs
 
 
@@ -860,24 +882,30 @@ def streams(ctx):
     out = []
     quick = ctx.quick
     jobs = 4 if quick else 16
-    rc, log, hbin = core.cargo_build(HARNESS["bin"], HARNESS["features"])
-    have = rc == 0
+    rc, log, hbin_d = core.cargo_build(HARNESS["bin"], HARNESS["features"])
+    have_d = rc == 0
+    have_r, hbin_r = False, None
+    if not quick:
+        rc, log, hbin_r = core.cargo_build(HARNESS_R["bin"], HARNESS_R["features"])
+        have_r = rc == 0
 
-    def located(name, srcs, kind, note="", modes=None, max_cost=None, tr_note=""):
+    def located(name, srcs, kind, note="", modes=None, max_cost=None, tr_note="", flavour="d"):
         """a `locate` stream judged by the oracle, and the `trace` stream derived from its answers"""
+        have, hbin = (have_d, hbin_d) if flavour == "d" else (have_r, hbin_r)
+        hs = None if flavour == "d" else HARNESS_R
         reqs = []
         for i, s in enumerate(srcs):
             b = s.encode("utf-8") if isinstance(s, str) else s
             m = modes[i] if modes else "m"
             reqs.append(f"locate {m} {hexs(b)}")
-        out.append(Stream(name, reqs, kind=kind, compare=False, note=note,
+        out.append(Stream(name, reqs, kind=kind, compare=False, note=note, harness=hs,
                           nontrivial=lambda r: r.split()[2] != "-"))
         if have:
             ans = _run_harness(hbin, reqs, jobs)
             ok = sum(1 for a in ans if a.startswith("parse=ok"))
             ctx.notes.append(f"{name}: {ok} of {len(reqs)} programs parsed; {sum(a.count(';') + 1 for a in ans if 'nodes=' in a)} node positions")
-            tr = _trace_requests(reqs, ans, max_cost=max_cost)
-            out.append(Stream(name + "-trace", tr, kind=kind,
+            tr = _trace_requests(reqs, ans, max_cost=max_cost, flavour=flavour)
+            out.append(Stream(name + "-trace", tr, kind=kind, harness=hs,
                               note="recorded call sequence of the real LinearLocator replayed through the model" + tr_note))
 
     # 1. corpus: constructs whose tree order differs from source order, in every line-ending/BOM variant
@@ -890,6 +918,18 @@ def streams(ctx):
     for s in ERRORS:
         errs.extend([s, s.replace("\n", "\r\n")])
     located("syntax-errors", errs, "malformed", note="locate_error of both locators on the reported error offset")
+
+    if not quick:
+        # the same programs against a build without debug assertions / overflow checks (release
+        # semantics): no self-check in locate_inner, wrapping u32 subtraction; model flavour `r`
+        located("corpus-release", corpus, "corpus", flavour="r",
+                note="same programs, harness built without debug assertions and overflow checks")
+        located("known-finding-probes-release", KNOWN_PROBES + ["class A(\n  metaclass=M, k=f(1,\n2),\n  *bases,\n y=3): pass\n"],
+                "corpus", flavour="r", note="the listed finding shapes in a release-semantics build (wrong rows/columns instead of panics)")
+        out.append(Stream("locseq-exhaustive-release-len<=4", _locseq_requests(4, 3, flavour="r"), kind="exhaustive",
+                          exhaustive=True, harness=HARNESS_R,
+                          note="the exhaustive small-scope histories against the release-semantics build",
+                          nontrivial=lambda r: r.split()[2] != "-"))
 
     # 2. the locator as a pure state machine: exhaustive small texts x call histories
     L = 4 if quick else 5
@@ -947,6 +987,9 @@ def streams(ctx):
         else:
             progs.append(_endings(g.program(), rng))
             modes.append("m")
+    if not quick:
+        located("programs-random-release", progs[:1500], "random", modes=modes[:1500], flavour="r",
+                note="first 1500 generated programs against the release-semantics build")
     located("programs-random", progs, "random", modes=modes,
             note="compact generator: calls with keyword/starred/double-starred arguments in every legal order, class "
                  "keywords after starred bases, dict unpacking, conditional expressions, decorators, f-strings with "
@@ -977,7 +1020,7 @@ def streams(ctx):
         srcs.append(b)
     located("stdlib", srcs, "corpus",
             note=f"{len(srcs)} files of {os.path.dirname(os.__file__)} (every 5th re-encoded with CRLF, every 5th with a BOM)",
-            max_cost=(60_000_000 if quick else 150_000_000),
+            max_cost=(60_000_000 if quick else 80_000_000),
             tr_note="; files whose (size x calls) exceeds the replay budget are judged by the oracle only")
     return out
 
